@@ -1265,3 +1265,68 @@ Proof.
   intros Hon Ht. change (apu_bus_write s 0xFF14 v) with (WriteNR14 s v).
   rewrite en1_W14, Hon, Ht. rewrite <- trigger_overflow_spec. reflexivity.
 Qed.
+
+(* ------------------------------------------------------------------------------------------------- *)
+(* C19: the sweep clock in documented terms *)
+Lemma calc_nf_spec w :
+  swShadow w < 2048 ->
+  calc_nf w = if swIncrease w then swShadow w + swShadow w / 2 ^ swShift w
+              else swShadow w - swShadow w / 2 ^ swShift w.
+Proof.
+  intros Hf. unfold calc_nf. rewrite N.shiftr_div_pow2.
+  assert (Hd : swShadow w / 2 ^ swShift w <= swShadow w).
+  { apply N.div_le_upper_bound; [apply N.pow_nonzero; discriminate|].
+    pose proof (N.pow_nonzero 2 (swShift w) ltac:(discriminate)). set (p := 2 ^ swShift w) in *. nia. }
+  set (f := swShadow w) in *. set (d := f / 2 ^ swShift w) in *.
+  destruct (swIncrease w); unfold add16, sub16; clearbody d f; clear - Hf Hd; lia.
+Qed.
+
+(* one step of the documented frequency calculation *)
+Definition sweep_next (f shift : N) (increase : bool) : N :=
+  if increase then f + f / 2 ^ shift else f - f / 2 ^ shift.
+
+(* A sweep clock switches channel 1 off exactly when the sweep unit is enabled, its timer expires, the period is not
+   0, and either the new frequency f' = f +/- (f >> s) exceeds 2047, or it fits, the shift is not 0 and the
+   calculation repeated with f' exceeds 2047 (the overflow re-check after the write-back) *)
+Theorem sweep_overflows_spec w :
+  swShadow w < 2048 ->
+  sweep_overflows w =
+  swEnabled w && (sub8 (swTimer w) 1 =? 0) && negb (swPeriod w =? 0) &&
+  (let f1 := sweep_next (swShadow w) (swShift w) (swIncrease w) in
+   (2047 <? f1) || ((f1 <? 2048) && (0 <? swShift w) && (2047 <? sweep_next f1 (swShift w) (swIncrease w)))).
+Proof.
+  intros Hf. unfold sweep_overflows. cbv zeta.
+  set (w0 := set_swTimer (set_swTimer w (sub8 (swTimer w) 1)) (swPeriod w)).
+  assert (H0 : calc_nf w0 = sweep_next (swShadow w) (swShift w) (swIncrease w))
+    by (rewrite (calc_nf_spec w0 Hf); reflexivity).
+  rewrite H0. set (f1 := sweep_next (swShadow w) (swShift w) (swIncrease w)).
+  change (swShift w0) with (swShift w).
+  destruct (f1 <? 2048) eqn:E1; cbn [andb]; [|reflexivity].
+  assert (H1 : calc_nf (set_swShadow (calc_w w0) f1) = sweep_next f1 (swShift w) (swIncrease w)).
+  { assert (Hs : swShadow (set_swShadow (calc_w w0) f1) < 2048) by (psimpl; lia).
+    rewrite (calc_nf_spec _ Hs). psimpl.
+    assert (Hc : swShift (calc_w w0) = swShift w0 /\ swIncrease (calc_w w0) = swIncrease w0)
+      by (unfold calc_w; destruct (swIncrease w0) eqn:Ei; split; try reflexivity; exact Ei).
+    destruct Hc as [-> ->]. reflexivity. }
+  rewrite H1. reflexivity.
+Qed.
+
+(* in subtraction mode neither calculation can overflow *)
+Lemma div_pow_le x k : x / 2 ^ k <= x.
+Proof.
+  apply N.div_le_upper_bound; [apply N.pow_nonzero; discriminate|].
+  pose proof (N.pow_nonzero 2 k ltac:(discriminate)). set (p := 2 ^ k) in *. nia.
+Qed.
+
+Lemma sweep_no_overflow_when_subtracting w :
+  swShadow w < 2048 -> swIncrease w = false -> sweep_overflows w = false.
+Proof.
+  intros Hf Hi. rewrite (sweep_overflows_spec w Hf). cbv zeta. unfold sweep_next. rewrite Hi.
+  pose proof (div_pow_le (swShadow w) (swShift w)) as D1.
+  set (d1 := swShadow w / 2 ^ swShift w) in *.
+  pose proof (div_pow_le (swShadow w - d1) (swShift w)) as D2.
+  set (d2 := (swShadow w - d1) / 2 ^ swShift w) in *.
+  assert (E1 : (2047 <? swShadow w - d1) = false) by (apply N.ltb_ge; clearbody d1 d2; clear - Hf D1; lia).
+  assert (E2 : (2047 <? swShadow w - d1 - d2) = false) by (apply N.ltb_ge; clearbody d1 d2; clear - Hf D1 D2; lia).
+  rewrite E1, E2. cbn [orb]. rewrite !Bool.andb_false_r. reflexivity.
+Qed.
